@@ -62,7 +62,8 @@ def run(ctx):
             raise vlib.Inconclusive("FilterChain model does not reject " + d)
     # 2. cases = complete behaviours of the specification
     raw = os.path.join(ctx.tmp, "FilterChain_cases.jsonl")
-    r = vlib.run_tlc(ctx, "lifecycle", "FilterChain", "FilterChain_cases.cfg", workers=1, cases_to=raw)
+    r = vlib.run_tlc(ctx, "lifecycle", "FilterChain", "FilterChain_cases.cfg" if q else "FilterChain_cases_thorough.cfg",
+                     workers=1, cases_to=raw, timeout=900)
     ctx.add_tlc(r)
     cases = vlib.read_jsonl(raw)
     if len(cases) < 1000:
@@ -80,13 +81,15 @@ def run(ctx):
         rest = [c for c in long_ if not (dense(c) and c["env"] == "ok")]
         picked = short + core + rng.sample(rest, min(len(rest), 4000))
     else:
-        picked = list(cases)
+        # every chain of length <= 3 (exhaustive) and a VERIF_SEED sample of the chains of length 4
+        four = [c for c in cases if len(c["chain"]) > 3]
+        picked = [c for c in cases if len(c["chain"]) <= 3] + rng.sample(four, min(len(four), 40000))
     picked += real_cases()
     rng.shuffle(picked)
     shards = 12 if q else 14
     traces, results = lc.run_sharded(ctx, "c14", picked, shards=shards)
     # 3. TLC validates every recorded run against the specification (groups of shard traces in parallel)
-    ngroups = 4
+    ngroups = 4 if q else 6
     groups = [traces[i::ngroups] for i in range(ngroups)]
     out = {}
     ths = [threading.Thread(target=validate_group, args=(ctx, gi, g, out)) for gi, g in enumerate(groups) if g]
@@ -162,12 +165,13 @@ def run(ctx):
         ctx.cov["other_property_mismatches"] = other
         vlib.log("[C14] note: %s (requests that hung after a correct forward: C03/C09 matter, not decided here)" % other)
     ctx.cov["exhaustive"] = not q
-    ctx.cov["rule"] = ("one case = (chain of <=3 filters over {BeforeRoute, AfterRoute, AfterChooseHost, send}, verdict per invocation from "
+    ctx.cov["rule"] = ("one case = (chain of <=3 (thorough: 4) filters over {BeforeRoute, AfterRoute, AfterChooseHost, send}, verdict per invocation from "
                        "{continue, stop, termination, hijack+stop, hijack+continue, direct response, TerminateStream sync / from a 2nd "
                        "goroutine, re-match, re-choose (<=2 re-entries)}, environment in {upstream 200 on a retry route, 503 then 200, "
                        "upstream closes, TerminateStream while the upstream holds the request, TerminateStream after the end}) = one "
                        "complete behaviour of FilterChain.tla (%d); each is one HTTP/1 request through the in-process MOSN; quick replays "
                        "all chains of length <=2, the answer+re-entry combinations of length 3 and a VERIF_SEED sample of the rest; "
+                       "thorough replays every chain of length <=3 and a VERIF_SEED sample of 40000 chains of length 4; "
                        "plus 48 cases with a real ipaccess / payloadlimit / faultinject filter denying in the middle of the chain" % len(cases))
     ctx.assumptions += ["HTTP/1 downstream and upstream, one request at a time per MOSN instance (12-14 instances in parallel)",
                         "re-match / re-choose are returned only in the phase in which the proxy honours them (AfterRoute / AfterChooseHost), "
